@@ -10,12 +10,14 @@ package main
 
 import (
 	"fmt"
+	"go/constant"
 	"go/token"
 	"go/types"
 	"sort"
 	"strings"
 
 	"golang.org/x/tools/go/ssa"
+	"golang.org/x/tools/go/ssa/ssautil"
 )
 
 func init() {
@@ -943,11 +945,55 @@ func sortSuppliedIndices(fn *ssa.Function) map[ssa.Value]bool {
 // visitor's signature (offset int, opcode, operand interface{}) (bool, error).
 func isWalkerCallback(fn *ssa.Function) bool {
 	ps := fn.Signature.Params()
-	if ps.Len() != 3 || !isInt(ps.At(0).Type()) || !isOpcodeType(ps.At(1).Type()) {
+	n := ps.Len()
+	if n < 3 || !isInt(ps.At(n-3).Type()) || !isOpcodeType(ps.At(n-2).Type()) {
 		return false
 	}
-	_, isIface := ps.At(2).Type().Underlying().(*types.Interface)
-	return isIface
+	if _, isIface := ps.At(n - 1).Type().Underlying().(*types.Interface); !isIface {
+		return false
+	}
+	if n == 3 {
+		return true
+	}
+	// a function that a walker callback hands its three arguments on to (with
+	// something of its own in front): it sees what the callback sees
+	return handedWalkerArgs(fn)
+}
+
+// handedWalkerArgs: every static call of fn sits in a walker callback and
+// passes that callback's offset, opcode and operand as fn's last three
+// arguments.
+func handedWalkerArgs(fn *ssa.Function) bool {
+	if fn.Prog == nil {
+		return false
+	}
+	sites := 0
+	np := len(fn.Params)
+	for g := range ssautil.AllFunctions(fn.Prog) {
+		if g.Pkg == nil || g.Pkg != fn.Pkg && (g.Parent() == nil || g.Parent().Pkg != fn.Pkg) {
+			continue
+		}
+		for _, b := range g.Blocks {
+			for _, ins := range b.Instrs {
+				c, ok := staticCalleeIs(ins, fn)
+				if !ok {
+					continue
+				}
+				sites++
+				gp := g.Signature.Params()
+				if gp.Len() != 3 || !isInt(gp.At(0).Type()) || !isOpcodeType(gp.At(1).Type()) || len(g.Params) < 3 || len(c.Call.Args) != np {
+					return false
+				}
+				gl := len(g.Params)
+				for k := 1; k <= 3; k++ {
+					if c.Call.Args[np-k] != ssa.Value(g.Params[gl-k]) {
+						return false
+					}
+				}
+			}
+		}
+	}
+	return sites > 0
 }
 
 func (pp *panicProver) walkerOffset(v ssa.Value) (ssa.Value, int64, bool) {
@@ -991,6 +1037,9 @@ func (pp *panicProver) proveIndex(facts []pedge, index, base ssa.Value, sortIdx 
 		return "shape", why
 	}
 	if why := pp.constRefShape(index, base); why != "" {
+		return "shape", why
+	}
+	if why := pp.reportedIndex(index, base); why != "" {
 		return "shape", why
 	}
 	return "fail", fmt.Sprintf("index %s into a value of length %s is not proven within bounds (lower %v, upper %v; %d fact(s))", linStr(idx), linStr(ln), lower, upper, len(facts))
@@ -1226,6 +1275,112 @@ func (pp *panicProver) bytecodeShape(facts []pedge, index, base ssa.Value, walke
 		}
 	}
 	return ""
+}
+
+// reportedIndex: the index is a result of a function of the same receiver that
+// searched the same field and reports where it found something — on every
+// return of that function whose last (boolean) result can be true the reported
+// index is proven, there, to lie inside the field; and here the index is used
+// only where that boolean was true, with no store to the field in between.
+func (pp *panicProver) reportedIndex(index, base ssa.Value) string {
+	ex, ok := index.(*ssa.Extract)
+	if !ok {
+		return ""
+	}
+	call, ok := ex.Tuple.(*ssa.Call)
+	if !ok {
+		return ""
+	}
+	g := call.Call.StaticCallee()
+	if g == nil || len(g.Blocks) == 0 || g.Signature.Recv() == nil || pp.fn.Signature.Recv() == nil || len(call.Call.Args) == 0 || call.Call.Args[0] != ssa.Value(pp.fn.Params[0]) {
+		return ""
+	}
+	rs := g.Signature.Results()
+	if rs.Len() < 2 || !isBoolType(rs.At(rs.Len()-1).Type()) {
+		return ""
+	}
+	// the field indexed here
+	ld, ok := base.(*ssa.UnOp)
+	if !ok || ld.Op != token.MUL {
+		return ""
+	}
+	fa, ok := ld.X.(*ssa.FieldAddr)
+	if !ok || fa.X != ssa.Value(pp.fn.Params[0]) {
+		return ""
+	}
+	// used only where the boolean result was true
+	var okv *ssa.Extract
+	for _, ref := range *call.Referrers() {
+		if e2, isEx := ref.(*ssa.Extract); isEx && e2.Index == rs.Len()-1 {
+			okv = e2
+		}
+	}
+	if okv == nil {
+		return ""
+	}
+	guarded := false
+	var useBlock *ssa.BasicBlock
+	for _, ref := range *ex.Referrers() {
+		if in, ok := ref.(ssa.Instruction); ok {
+			useBlock = in.Block()
+		}
+	}
+	for _, ref := range *okv.Referrers() {
+		if iff, isIf := ref.(*ssa.If); isIf && useBlock != nil {
+			t := iff.Block().Succs[0]
+			if len(t.Preds) == 1 && (t == useBlock || t.Dominates(useBlock)) {
+				guarded = true
+			}
+		}
+	}
+	if !guarded {
+		return ""
+	}
+	// no store to the field in this function (the length is what the callee saw)
+	for _, b := range pp.fn.Blocks {
+		for _, ins := range b.Instrs {
+			if st, ok := ins.(*ssa.Store); ok {
+				if fa2, ok := st.Addr.(*ssa.FieldAddr); ok && fa2.Field == fa.Field && fa2.X == fa.X {
+					return ""
+				}
+			}
+		}
+	}
+	// in the callee: every return that can report success has the index in range
+	gp := newPanicProver(pp.p, g)
+	n := 0
+	for _, b := range g.Blocks {
+		ret, ok := terminator(b).(*ssa.Return)
+		if !ok || len(ret.Results) != rs.Len() {
+			continue
+		}
+		last := ret.Results[rs.Len()-1]
+		if c, ok := last.(*ssa.Const); ok && c.Value != nil && c.Value.Kind() == constant.Bool && !constant.BoolVal(c.Value) {
+			continue
+		}
+		n++
+		// the callee's own view of the field
+		var gbase ssa.Value
+		for _, b2 := range g.Blocks {
+			for _, ins := range b2.Instrs {
+				if l2, ok := ins.(*ssa.UnOp); ok && l2.Op == token.MUL {
+					if f2, ok := l2.X.(*ssa.FieldAddr); ok && f2.Field == fa.Field && f2.X == ssa.Value(g.Params[0]) && (l2.Block() == b || l2.Block().Dominates(b)) {
+						gbase = l2
+					}
+				}
+			}
+		}
+		if gbase == nil {
+			return ""
+		}
+		if v, _ := gp.proveIndex(gp.facts(b), ret.Results[ex.Index], gbase, nil, false); v != "proven" {
+			return ""
+		}
+	}
+	if n == 0 {
+		return ""
+	}
+	return fmt.Sprintf("the index %s reports for a successful search of the same field: proven inside it at each of its %d reporting return(s), and used here only where the search succeeded", g.Name(), n)
 }
 
 // instructionOffset: v (a value of fn) is the offset of an instruction as the
